@@ -205,6 +205,167 @@ Section MacroProofs.
   Proof. reflexivity. Qed.
 
   (* ------------------------------------------------------------------------------------------------ *)
+  (* the fuel given by json_macro is never exhausted: the model always answers with a value or a compile error,
+     for every token sequence, for the repaired and for the old macro *)
+
+  Lemma object_m_S old f acc rest : object_m F old (S f) acc rest =
+      match rest with
+      | [] => Ok acc
+      | key :: TColon :: vrest =>
+        if single_tt F key then
+          match vrest with
+          | TNull :: r =>
+            match key_string F key with
+            | Some k => object_m F old f (acc ++ [(k, VNull)]) r
+            | None => Err E_KEY
+            end
+          | TBracket a :: r =>
+            match json_m F old f [TBracket a] with
+            | Ok x => match key_string F key with
+                      | Some k => object_m F old f (acc ++ [(k, x)]) r
+                      | None => Err E_KEY
+                      end
+            | Err e => Err e
+            | Crash w => Crash w
+            end
+          | TBrace o :: r =>
+            match json_m F old f [TBrace o] with
+            | Ok x => match key_string F key with
+                      | Some k => object_m F old f (acc ++ [(k, x)]) r
+                      | None => Err E_KEY
+                      end
+            | Err e => Err e
+            | Crash w => Crash w
+            end
+          | TExpr v kk :: TComma :: r =>
+            match json_m F old f [TExpr v kk] with
+            | Ok x => match key_string F key with
+                      | Some k => object_m F old f (acc ++ [(k, x)]) r
+                      | None => Err E_KEY
+                      end
+            | Err e => Err e
+            | Crash w => Crash w
+            end
+          | [TExpr v kk] =>
+            match json_m F old f [TExpr v kk] with
+            | Ok x => match key_string F key with
+                      | Some k => object_m F old f (acc ++ [(k, x)]) []
+                      | None => Err E_KEY
+                      end
+            | Err e => Err e
+            | Crash w => Crash w
+            end
+          | _ =>
+            match key with
+            | TComma => object_m F old f acc (TColon :: vrest)
+            | _ => Err E_NOARM
+            end
+          end
+        else Err E_NOARM
+      | TComma :: r => object_m F old f acc r
+      | _ => Err E_NOARM
+      end.
+  Proof. reflexivity. Qed.
+
+  Lemma array_m_S old f acc rest : array_m F old (S f) acc rest =
+      match rest with
+      | [] => Ok acc
+      | TNull :: r => array_m F old f (acc ++ [VNull]) (if old then [] else r)
+      | TBracket a :: r =>
+        match json_m F old f [TBracket a] with
+        | Ok x => array_m F old f (acc ++ [x]) r
+        | Err e => Err e
+        | Crash w => Crash w
+        end
+      | TBrace o :: r =>
+        match json_m F old f [TBrace o] with
+        | Ok x => array_m F old f (acc ++ [x]) r
+        | Err e => Err e
+        | Crash w => Crash w
+        end
+      | TExpr v k :: TComma :: r =>
+        match json_m F old f [TExpr v k] with
+        | Ok x => array_m F old f (acc ++ [x]) r
+        | Err e => Err e
+        | Crash w => Crash w
+        end
+      | [TExpr v k] =>
+        match json_m F old f [TExpr v k] with
+        | Ok x => array_m F old f (acc ++ [x]) []
+        | Err e => Err e
+        | Crash w => Crash w
+        end
+      | TComma :: r => array_m F old f acc r
+      | _ => Err E_NOARM
+      end.
+  Proof. reflexivity. Qed.
+
+  Ltac nofuel := unfold E_NOARM, E_KEY, E_FUEL; discriminate.
+
+  Lemma total_all (old : bool) : forall f : nat,
+    (forall ts, (lsize F ts <= f)%nat -> (1 <= f)%nat -> json_m F old f ts <> Err E_FUEL) /\
+    (forall acc rest, (lsize F rest < f)%nat -> array_m F old f acc rest <> Err E_FUEL) /\
+    (forall acc rest, (lsize F rest < f)%nat -> object_m F old f acc rest <> Err E_FUEL).
+  Proof.
+    induction f as [|f [IHj [IHa IHo]]]; [split; [intros; lia|split; intros; lia]|].
+    (* a nested json! call on one group, then a continuation *)
+    assert (Hsub : forall {A} (g : tt) (k : value -> outcome A),
+               (tsize F g <= f)%nat -> (1 <= f)%nat -> (forall x, k x <> Err E_FUEL) ->
+               match json_m F old f [g] with Ok x => k x | Err e => Err e | Crash w => Crash w end <> Err E_FUEL).
+    { intros A g k Hg Hf Hk. pose proof (IHj [g] ltac:(cbn [lsize]; lia) Hf) as Hj.
+      destruct (json_m F old f [g]) as [x|e|w]; [apply Hk|intro E; apply Hj; inversion E; reflexivity|discriminate]. }
+    split; [|split].
+    - (* json! *)
+      intros ts Hs _. rewrite json_m_S.
+      destruct ts as [|t [|t2 r]]; [discriminate| |destruct t; try nofuel; destruct l; nofuel].
+      destruct t as [| | |v k|a|o]; try nofuel; try discriminate.
+      + rewrite lsize_cons, tsize_bracket in Hs. cbn [lsize] in Hs.
+        pose proof (IHa [] a ltac:(lia)) as H. destruct (array_m F old f [] a); [discriminate|intro E; apply H; inversion E; reflexivity|discriminate].
+      + rewrite lsize_cons, tsize_brace in Hs. cbn [lsize] in Hs.
+        destruct o as [|x o']; [discriminate|].
+        pose proof (IHo [] (x :: o') ltac:(lia)) as H.
+        destruct (object_m F old f [] (x :: o')); [discriminate|intro E; apply H; inversion E; reflexivity|discriminate].
+    - (* json_array_internal! *)
+      intros acc rest Hs. rewrite array_m_S.
+      destruct rest as [|t r]; [discriminate|]. rewrite lsize_cons in Hs. pose proof (tsize_pos t) as Hp.
+      destruct t as [| | |v k|a|o].
+      + apply IHa. cbn [tsize] in Hs. destruct old; [cbn [lsize]; lia|lia].
+      + apply IHa. cbn [tsize] in Hs. lia.
+      + nofuel.
+      + cbn [tsize] in Hs. destruct r as [|t2 r2].
+        * apply Hsub; [cbn [tsize]; cbn [lsize] in Hs; lia|cbn [lsize] in Hs; lia|]. intro x. apply IHa. cbn [lsize] in *. lia.
+        * rewrite lsize_cons in Hs. pose proof (tsize_pos t2) as Hp2.
+          destruct t2; try nofuel.
+          apply Hsub; [cbn [tsize]; lia|lia|]. intro x. apply IHa. cbn [tsize] in Hs. lia.
+      + apply Hsub; [lia|lia|]. intro x. apply IHa. lia.
+      + apply Hsub; [lia|lia|]. intro x. apply IHa. lia.
+    - (* json_object_internal! *)
+      intros acc rest Hs. rewrite object_m_S.
+      destruct rest as [|key r]; [discriminate|]. rewrite lsize_cons in Hs. pose proof (tsize_pos key) as Hp.
+      destruct r as [|c vrest].
+      { destruct key; try nofuel. apply IHo. cbn [lsize tsize] in *. lia. }
+      rewrite lsize_cons in Hs. pose proof (tsize_pos c) as Hpc.
+      destruct key as [| | |kv [k|]|ka|ko]; destruct c as [| | |cv ck|ca|co];
+        cbn [single_tt key_string]; cbv iota;
+        try nofuel; try (apply IHo; rewrite ?lsize_cons; cbn [tsize] in *; lia).
+      (* what remains: key `:` vrest with a single-token key *)
+      all: destruct vrest as [|t r]; [try nofuel; try (apply IHo; cbn [lsize tsize] in *; lia)|].
+      all: rewrite lsize_cons in Hs; pose proof (tsize_pos t) as Hpt; destruct t as [| | |v kk|a|o]; cbv iota.
+      all: try nofuel; try (apply IHo; rewrite ?lsize_cons; cbn [tsize lsize] in *; lia).
+      all: try (apply Hsub; [cbn [tsize] in *; lia|lia|intro x; first [nofuel|apply IHo; cbn [tsize] in *; lia]]).
+      all: destruct r as [|t2 r2]; cbv iota.
+      all: try (apply Hsub; [cbn [tsize] in *; lia|cbn [tsize lsize] in *; lia|intro x; first [nofuel|apply IHo; cbn [tsize lsize] in *; lia]]).
+      all: rewrite lsize_cons in Hs; pose proof (tsize_pos t2) as Hp2; destruct t2; cbv iota.
+      all: try nofuel; try (apply IHo; rewrite ?lsize_cons; cbn [tsize lsize] in *; lia).
+      all: try (apply Hsub; [cbn [tsize] in *; lia|cbn [tsize lsize] in *; lia|intro x; first [nofuel|apply IHo; cbn [tsize lsize] in *; lia]]).
+  Qed.
+
+  Theorem json_macro_total (old : bool) (ts : list tt) : json_macro F old ts <> Err E_FUEL.
+  Proof.
+    unfold json_macro, json_fuel. apply (proj1 (total_all old (S (lsize F ts)))); lia.
+  Qed.
+
+  (* ------------------------------------------------------------------------------------------------ *)
   (* the functional form of the grammar agrees with the relation *)
 
   Definition denote_elems : list tt -> option (list value) :=
